@@ -834,3 +834,101 @@ def explore_c02(ctx, res, replay_ops=None):
 PROPS["C02"] = dict(lean=["ChfVerif.Props.C02"], explore=explore_c02,
                     trusted=["records are observed in memory (ChfUe.Records via the context API); the written file is covered by C03",
                              "time.Now is not driven: TimeStampToCdr is exercised with constructed time.Time values"])
+
+
+# ------------------------------------------------------------------ regenerated tables (ChfVerif/Gen)
+
+def gen_table(which, fname):
+    def g(ctx):
+        rc, so, se = core.run([ctx.harness, "dump-tables", which], env=dict(core.GOENV, VERIF_REPO=core.REPO))
+        if rc != 0:
+            raise RuntimeError("dump-tables %s failed: %s" % (which, se.decode(errors="replace")[-1500:]))
+        path = os.path.join(core.LEAN, "ChfVerif", "Gen", fname)
+        with core.Lock("lake"):
+            changed = core.write_if_changed(path, so.decode())
+        if changed:
+            log("Gen/%s regenerated (changed)" % fname)
+    return g
+
+
+# ------------------------------------------------------------------ C13
+
+def explore_c13(ctx, res, replay_ops=None):
+    r = ctx.stream("auth", 0, ops=replay_ops, with_model=False)
+    lists = set()
+    for i, (op, im) in enumerate(zip(r.ops, r.impl)):
+        t = op.split()
+        res.evaluations += 1
+        lists.add(t[2])
+        res.dist["token:" + t[5]] += 1
+        res.nontrivial.add(" ".join(t[2:5]))
+        m = re.match(r"status=(\d+) pool=(\d+)>(\d+)", im)
+        res.traces_validated += 1
+        if not m:
+            res.violation("oracle", "C13: probe crashed: " + im, [op])
+            continue
+        st, b, a = int(m.group(1)), int(m.group(2)), int(m.group(3))
+        path = bytes.fromhex(t[4]).decode()
+        registered = not (path in ("/", "/chargingdata"))
+        if registered and st != 401:
+            res.violation("oracle", "C13: %s %s answered %d to a request with token kind '%s' (services %s)" % (
+                t[3], path, st, t[5], t[2]), [op, "# impl: " + im])
+        if not registered and st // 100 == 2:
+            res.violation("oracle", "C13: unregistered path %s answered %d" % (path, st), [op, "# impl: " + im])
+        if a != b:
+            res.violation("oracle", "C13: an unauthenticated request changed the subscriber pool", [op, "# impl: " + im])
+        res.sample({"op": op, "impl": im})
+    res.exhaustive = True
+    res.extra["service_lists"] = len(lists)
+    res.rule = ("exhaustive: every route gin registered for each of the 16 ordered lists of distinct service names x 6 token kinds "
+                "(absent, garbage, 'Bearer' garbage, alg=none JWT, HS256 JWT, RS512 JWT signed by another key), OAuth2Required=true, "
+                "NRF certificate generated at run time; expects 401 and an unchanged subscriber pool; distinct = (services, method, path)")
+
+
+PROPS["C13"] = dict(lean=["ChfVerif.Props.C13"], explore=explore_c13, gen=[gen_table("routes", "Routes.lean")],
+                    trusted=["gin group/middleware/Abort semantics are modelled (Model/Router.lean)",
+                             "free5gc/openapi oauth.VerifyOAuth is abstracted as a predicate on tokens (probed with 6 kinds of bad token)",
+                             "the go/ast extractor in harness/cmd/routes.go (syntactic facts of newRouter) and gin's reported chain lengths"])
+
+
+# ------------------------------------------------------------------ C17
+
+def explore_c17(ctx, res, replay_ops=None):
+    n = n_for(ctx, 800, 20000)
+    r = ctx.stream("diam", n, ops=replay_ops)
+    for i, (op, im, mo) in enumerate(zip(r.ops, r.impl, r.model)):
+        t = op.split()
+        res.evaluations += 1
+        res.dist[t[1]] += 1
+        if t[1] == "rt":
+            res.traces_validated += 1
+            if im.startswith("same "):
+                res.nontrivial.add(op)
+                res.dist[im.split()[1]] += 1
+                if len(res.samples) < 4:
+                    res.sample({"op": op, "impl": im})
+            else:
+                res.violation("oracle", "C17: a message did not come back as it was sent: " + im[:600], [op, "# impl: " + im[:4000]])
+        elif t[1] == "prim":
+            if im != mo:
+                res.disagreements += 1
+                res.violation("correspondence", "diam: AVP data encoding differs between library and model", [op, "# impl: " + im, "# model: " + mo],
+                              found_input=False)
+        elif t[1] == "lookup":
+            name = bytes.fromhex(t[2]).decode()
+            if not im.startswith("def "):
+                res.violation("oracle", "C17: AVP name %s used by a message structure is not defined in the loaded dictionaries" % name, [op, "# impl: " + im])
+            else:
+                back = bytes.fromhex(im.split("back=")[1]).decode(errors="replace")
+                if back != name:
+                    res.violation("oracle", "C17: AVP %s and %s share code %s" % (name, back, im.split()[1]), [op, "# impl: " + im])
+    res.rule = ("(a) randomly filled ServiceUsageRequest/Response and AccountDebitRequest/Response (every field at boundary and random "
+                "values of its AVP type, each optional grouped AVP present/absent) through Marshal -> Serialize -> ReadMessage -> "
+                "Unmarshal, compared field by field; (b) basic AVP data encodings compared with the Lean codec model; (c) every tag name "
+                "looked up by name and back by code; non-trivial = message round trip")
+
+
+PROPS["C17"] = dict(lean=["ChfVerif.Props.C17"], explore=explore_c17, gen=[gen_table("diameter", "Diameter.lean")],
+                    trusted=["fiorix/go-diameter (AVP framing, dictionary look-up rules, reflection-based Marshal/Unmarshal) is a modelled library: "
+                             "its basic data formats are modelled in Lean and compared; message-level fidelity is observed, not proved",
+                             "Time AVPs are second-granular (RFC 6733): generated times are whole seconds"])
